@@ -222,6 +222,13 @@ def _nonzero(lib, run, recv, args, kw):
 def _reshape(lib, run, recv, args, kw):
     if len(args) == 1 and isinstance(args[0], Num) and args[0].concrete() == -1:
         return recv
+    if len(args) == 2 and all(isinstance(a, Num) and a.concrete() is not None for a in args) and recv.kind == 'R':
+        a, b = args[0].concrete(), args[1].concrete()
+        from .libcalls import row1
+        if (a, b) == (-1, 1):
+            return MatV(F('col1', RSeq, Mat)(recv.term))
+        if (a, b) == (1, -1):
+            return MatV(row1(recv.term))
     raise Unsupported('reshape of a vector')
 
 
